@@ -19,6 +19,40 @@ namespace {
       // heap-address personality of this sweep: the address-ordered lookup tables see the same requests in another order
       vf::env::set_alloc(vf::env::Alloc((rot + history) % 4));
       struct Reset { ~Reset() { vf::env::set_alloc(vf::env::Alloc::Malloc); vf::env::arena_reset(); } } reset;
+      if (history == 5) {
+         // every row on its own, twice in a row: a Lexicon builds just that row and dies, the next one builds the same row at the same
+         // addresses and is checked (C02-K: a cursor in function-local statics keyed by the address of the list it last served)
+         for (auto& r : rows()) {
+            for (int second = 0; second < 2; ++second) {
+               {
+                  ipr::impl::Lexicon l;
+                  ipr::impl::Translation_unit u{ l };
+                  Ctx c{ l, u };
+                  c.rot = rot;
+                  c.rep = &rep;
+                  c.prop = second ? "C02" : "";
+                  build_row(c, r);
+                  if (second) rep.count("states", (long long) c.entries.size());
+               }
+               vf::env::arena_reset();
+            }
+         }
+         rep.count("traces");
+         return;
+      }
+      if (history == 4) {
+         // a Lexicon that built the whole table with the same operands has just died, and this one takes its place: under the arena
+         // personalities every node of the new Lexicon lands exactly on the address of its dead counterpart (glibc reuses most)
+         {
+            ipr::impl::Lexicon dead;
+            ipr::impl::Translation_unit dead_unit{ dead };
+            Ctx d{ dead, dead_unit };
+            d.rot = rot;
+            d.prop = "";
+            build_all(d);
+         }
+         vf::env::arena_reset();
+      }
       ipr::impl::Lexicon lex;
       ipr::impl::Translation_unit unit{ lex };
       if (history == 1)
@@ -76,17 +110,17 @@ int main(int argc, char** argv)
    if (verbose) {
       auto ops = vf::json_int_array(vf::slurp(opt.replay), "ops");
       int rot = ops.empty() ? 0 : int(ops[0]);
-      std::printf("replay C02: operand rotation %d, all three histories\n", rot);
-      for (int h = 0; h < 4; ++h) sweep(rot, h);
+      std::printf("replay C02: operand rotation %d, all six histories\n", rot);
+      for (int h = 0; h < 6; ++h) sweep(rot, h);
       for (auto& [k, v] : rep.viols) std::printf("violated: %s  (%s)\n", k.c_str(), v.what.c_str());
       return rep.viols.empty() ? 0 : 1;
    }
    int job = 0;
    for (int rot = 0; rot < 12; ++rot)
-      for (int h = 0; h < 4; ++h)
+      for (int h = 0; h < 6; ++h)
          if (opt.mine(job++)) sweep(rot, h);
    if (opt.shard == 0) {
-      rep.info("space", vf::JObj{}.num("factory_rows", (long long) zoo::rows().size()).num("operand_rotations", 12).num("histories", 4).done());
+      rep.info("space", vf::JObj{}.num("factory_rows", (long long) zoo::rows().size()).num("operand_rotations", 12).num("histories", 6).done());
       rep.sample(vf::JObj{}.str("row", "make_conditional").str("checked", "condition/then_expr/else_expr == the three distinct operands given, in order; first/second/third likewise; type absent or given; implementation absent").done());
       rep.sample(vf::JObj{}.str("row", "make_new").str("checked", "placement absent / present, initializer, global_requested false then true after setting").done());
    }
